@@ -241,7 +241,7 @@ def fb_rule(chk, db):
     chk.extra["fallback_helpers_evaluated"] = n
 
 
-META_EXTRA = 'FB (library-local constant-evaluation helpers of exactly specified functions, evaluated over a finite floating-point class domain against the closed form).'
+META_EXTRA = 'FB (library-local constant-evaluation helpers of exactly specified functions, evaluated over a finite floating-point class domain against the closed form); SHIFT (shift counts below the promoted width of the left operand, symbolic type width).'
 META = (META[0] + " " + META_EXTRA, META[1])
 
 
